@@ -685,6 +685,13 @@ def recvUni (c : Conn σ) (s : Stream) (data : Bytes) (endedArg : Bool) : Outcom
 
 def isUni (sid : Nat) : Bool := sid % 4 = 2 || sid % 4 = 3
 
+/-- the `finally:` of `_get_or_create_stream`: "delete stream objects when they
+    are done" — `if stream.is_ended(): self._stream.pop(stream_id)` -/
+def popIfEnded (c : Conn σ) (sid : Nat) : Conn σ :=
+  match lookupS sid c.streams with
+  | some s1 => if s1.isEnded then { c with streams := eraseS sid c.streams } else c
+  | none => c
+
 /-- `_receive_stream_data` including `_get_or_create_stream` -/
 def recvStreamData (c : Conn σ) (sid : Nat) (data : Bytes) (fin : Bool) : Outcome (Conn σ × List Event) :=
   let s : Stream := match lookupS sid c.streams with
@@ -699,10 +706,7 @@ def recvStreamData (c : Conn σ) (sid : Nat) (data : Bytes) (fin : Bool) : Outco
       | .ok (s1, q1, evs) => .ok ({ c0 with q := q1, streams := setS sid s1 c0.streams }, evs)
   match r with
   | .error e => .error e
-  | .ok (c1, evs) =>
-    match lookupS sid c1.streams with
-    | some s1 => if s1.isEnded then .ok ({ c1 with streams := eraseS sid c1.streams }, evs) else .ok (c1, evs)
-    | none => .ok (c1, evs)
+  | .ok (c1, evs) => .ok (popIfEnded c1 sid, evs)
 
 inductive QuicEvent where
   | streamData (sid : Nat) (data : Bytes) (fin : Bool)
